@@ -2,6 +2,7 @@ package ops
 
 import (
 	"fmt"
+	delegationtypes "github.com/ExocoreNetwork/exocore/x/delegation/types"
 	"github.com/ethereum/go-ethereum/common"
 	"math/big"
 	"math/rand"
@@ -518,9 +519,34 @@ func (w *World) RunLedger(o LedgerOpts) {
 			}
 		case wt(wOpt + 10): // opt in (with key) to dogfood
 			op := w.pickOper(true)
+			if r.Intn(2) == 0 {
+				for _, cand := range w.Opers {
+					if cand.Registered && len(cand.Keys) == 0 {
+						op = cand // a registered operator that has never had a key
+						break
+					}
+				}
+			}
 			key := sim.NewConsKey(fmt.Sprintf("%s-k%d", op.Acct.Name, op.NextKey))
 			op.NextKey++
 			w.fund(op.Acct)
+			if len(op.Keys) == 0 && r.Intn(2) == 0 {
+				// a newcomer whose power ties with a sitting validator's (asset 0: 6 decimals, genesis price 1): with the
+				// set full, the tie sits on the max-validators boundary
+				var powers []int64
+				for _, v := range w.Last.Dog.Validators {
+					powers = append(powers, v.Power)
+				}
+				sort.Slice(powers, func(i, j int) bool { return powers[i] < powers[j] })
+				if len(powers) > 0 && powers[0] > 0 && powers[0] < 1_000_000 {
+					if s := w.pickStaker(w.Assets[0].Lz, false); s != nil {
+						amt := sdkmath.NewInt(powers[r.Intn(len(powers))] * 1_000_000)
+						if st := w.Deposit(s, w.Assets[0], amt); st.Ack {
+							w.Delegate(s, w.Assets[0], op, amt)
+						}
+					}
+				}
+			}
 			w.OptIn(op, w.AVSAddr, key)
 		case wt(wOpt): // opt out
 			if op := w.pickOper(true); op != w.Opers[0] {
@@ -780,9 +806,30 @@ func (w *World) isProtectedCons(addr []byte) bool {
 func (w *World) randomSlash(n int) {
 	r := w.R
 	op := w.pickOper(true)
+	// half of the time the target is an operator with pending undelegation records (a record can then be hit by
+	// several slashes during its life), preferably the one slashed last
+	if r.Intn(2) == 0 {
+		var cands []*Oper
+		for _, rec := range sortedUndel(w.Last.Ledger) {
+			if o := w.OperByAddr(rec.OperatorAddr); o != nil && o != w.Opers[0] {
+				cands = append(cands, o)
+			}
+		}
+		if len(cands) > 0 {
+			op = cands[r.Intn(len(cands))]
+			if w.lastSlashed != nil && r.Intn(2) == 0 {
+				for _, c := range cands {
+					if c == w.lastSlashed {
+						op = c
+					}
+				}
+			}
+		}
+	}
 	if op == w.Opers[0] {
 		return
 	}
+	w.lastSlashed = op
 	ctx := w.C.Ctx()
 	h := w.C.Height()
 	evh := h - int64(r.Intn(15))
@@ -836,4 +883,19 @@ func (w *World) randomSlash(n int) {
 		in.Power = 0
 	}
 	w.SlashStep(in)
+}
+
+// sortedUndel returns the pending undelegation records in key order (map iteration order must not leak into the
+// generator's decisions).
+func sortedUndel(l *sim.Ledger) []delegationtypes.UndelegationRecord {
+	var ks []string
+	for k := range l.Undel {
+		ks = append(ks, k)
+	}
+	sort.Strings(ks)
+	out := make([]delegationtypes.UndelegationRecord, 0, len(ks))
+	for _, k := range ks {
+		out = append(out, l.Undel[k])
+	}
+	return out
 }
